@@ -1,0 +1,7 @@
+//go:build !verif
+
+package frugal
+
+// verifC15Yield marks the read loop's yield points for the verification
+// harness; without the "verif" build tag it is empty and inlined away.
+func verifC15Yield(point string, err error) {}
